@@ -74,7 +74,9 @@ Theorem required_file_outcome : forall c p size ff es e,
 Proof. intros c p size ff es e S L. apply ext_events_required; [rewrite S; reflexivity|rewrite L; reflexivity]. Qed.
 Print Assumptions required_file_outcome.
 
-(* ErrorOnFSErrors = true: the scan succeeds iff no traversal fault is reached *)
+(* ErrorOnFSErrors = true: the scan succeeds iff no traversal fault is reached -- a directory the walk enters that
+   cannot be opened, fails while being listed, or (UseGitignore) holds a .gitignore that cannot be opened, whatever
+   the error kind; or a root that cannot be stat'ed *)
 Theorem fatal_iff_traversal_fault : forall c t,
   c_fatal c = true -> no_limits c = true -> no_xpanic c -> c_paths c = [] -> tree_quiet c t = true ->
   ((exists st, fs_result c t = WOk st Continue) <-> traversal_fault c t = false).
